@@ -1030,6 +1030,14 @@ def compile_comprehension(compiler, expr, root, parts, final):
                     expr, test=asty.Constant(expr, value=False), body=if_body, orelse=[]
                 )
 
+            # As in a real comprehension, the first iterable is evaluated
+            # in the enclosing scope and passed in as an argument.
+            first_iter = None
+            if parts[0].tag not in ("if", "do"):
+                tagname, (target, first_iter) = parts[0]
+                arg = compiler.get_anon_var()
+                parts[0] = Tag(tagname, [
+                    target, Result(expr=asty.Name(expr, id=arg, ctx=ast.Load()))])
             body = f(parts).stmts
               # `f` needs to be called before the next line so
               # `any_async` is set early enough.
@@ -1037,7 +1045,11 @@ def compile_comprehension(compiler, expr, root, parts, final):
                 expr,
                 name=fname,
                 args=ast.arguments(
-                    args=[],
+                    args=(
+                        [asty.arg(expr, arg=arg, annotation=None)]
+                        if first_iter is not None
+                        else []
+                    ),
                     vararg=None,
                     kwarg=None,
                     posonlyargs=[],
@@ -1060,8 +1072,7 @@ def compile_comprehension(compiler, expr, root, parts, final):
                 v1, v2 = f"{v1}: {v2}", f"{v1}, {v2}"
             else:
                 v1 = v2 = compiler.get_anon_var()
-            return ret + Result(expr =
-                asty.parse(expr,
+            call = (asty.parse(expr,
                     f"{fname}()"
                     if node_class is asty.GeneratorExp else
                     "{}{} {} for {} in {}(){}".format(
@@ -1072,6 +1083,11 @@ def compile_comprehension(compiler, expr, root, parts, final):
                         fname,
                         brackets[1]))
                 .body[0].value)
+            if first_iter is not None:
+                ret += first_iter
+                fcall = call if node_class is asty.GeneratorExp else call.generators[0].iter
+                fcall.args.append(first_iter.force_expr)
+            return ret + Result(expr = call)
 
         # We can produce a real comprehension.
         generators = []
